@@ -348,7 +348,7 @@ inline PSpec gen_pspec(int f, bool may_depend) {
   PSpec p;
   p.field = f;
   VKind k = kind_of(f);
-  if (k == K_OPT) { static const char *SY[] = {"sine", "saw", "square", "tri", "noise"}; int n = vf::pick<int>(2, 5); for (int i = 0; i < n; i++) p.opts.push_back(SY[i]); }
+  if (k == K_OPT) { static const char *SY[2][5] = {{"sine", "saw", "square", "tri", "noise"}, {"ch1", "ch10", "ch11", "ch2", "ch"}}; int set = vf::pickn(2); int n = vf::pick<int>(2, 5); for (int i = 0; i < n; i++) p.opts.push_back(SY[set][i]); }
   if (k == K_INT || k == K_FLOAT || k == K_AINT) { p.has_range = vf::chance(70); p.mn = vf::pick<int>(-100, 50); p.mx = p.mn + vf::pick<int>(1, 120); }
   // char-backed array elements narrow to char before clamping: keep their range inside char
   if (k == K_AINT) { p.has_range = true; p.mn = vf::pick<int>(-100, 50); p.mx = std::min(127, p.mn + vf::pick<int>(1, 100)); }
